@@ -211,13 +211,19 @@ class C23(Standard):
                    "asserts are on in the harness; with NDEBUG the faulting calls would continue with wrapped values"]
 
     def prepare(self, ctx, cases):
+        # four harness binaries compiled in parallel, each with a quarter of the configurations
         cfgs = sorted(set(c.cfg[0] for c in cases))
-        key = "latency_" + hashlib.sha1(";".join(cfgs).encode()).hexdigest()[:10]
-        d = os.path.join(ctx.bdir, key + ".d")
-        os.makedirs(d, exist_ok=True)
-        with open(os.path.join(d, "latency_configs.inc"), "w") as f:
-            f.write("".join(registration(c) for c in cfgs))
-        return [(key, ["-I" + d], cases)]
+        ngroups = min(4, len(cfgs))
+        groups = []
+        for g in range(ngroups):
+            mine = cfgs[g::ngroups]
+            key = "latency_" + hashlib.sha1(";".join(mine).encode()).hexdigest()[:10]
+            d = os.path.join(ctx.bdir, key + ".d")
+            os.makedirs(d, exist_ok=True)
+            with open(os.path.join(d, "latency_configs.inc"), "w") as f:
+                f.write("".join(registration(c) for c in mine))
+            groups.append((key, ["-I" + d], [c for c in cases if c.cfg[0] in mine]))
+        return groups
 
     def generate(self, ctx):
         rng = ctx.rng
